@@ -29,6 +29,8 @@ struct Case {
     raw: Option<Vec<u8>>,
     /// every DATA frame of the transport is a Buf of this many non-contiguous segments
     segments: usize,
+    /// fixed cyclic chunk lengths (large bodies)
+    fixed: Option<Vec<usize>>,
 }
 
 fn encode(c: &Case) -> (Vec<u8>, Vec<usize>) {
@@ -119,7 +121,9 @@ fn body(c: &Case, ch: &Chooser) -> Outcome {
         bytes.truncate(t);
     }
     // exhaustive-composition cases take no Pending deviations (they would multiply 2^(n-1) compositions by every placement)
-    let chunking = if c.segments > 1 { Chunking::Fixed(if c.drip { vec![7] } else { vec![] }) } else if c.drip { Chunking::Fixed(vec![1]) } else { Chunking::Choose { free: c.free, pending: !c.free, empty: false } };
+    let chunking = if let Some(f) = &c.fixed {
+        Chunking::Fixed(f.clone())
+    } else if c.segments > 1 { Chunking::Fixed(if c.drip { vec![7] } else { vec![] }) } else if c.drip { Chunking::Fixed(vec![1]) } else { Chunking::Choose { free: c.free, pending: !c.free, empty: false } };
     let stats_slot = std::sync::Arc::new(std::sync::Mutex::new(None));
     let inner = Canned { body: bytes.clone(), chunking, segments: c.segments, ch: ch.clone(), stats: stats_slot.clone() };
     let mut svc = GrpcWebClientService::new(inner);
@@ -238,7 +242,7 @@ fn cases(tier: Tier) -> Vec<Case> {
     for msgs in &msg_sets {
         for (ti, tr) in trailer_menu().into_iter().enumerate() {
             for space in [false, true] {
-                let base = Case { msgs: msgs.clone(), trailers: tr.clone(), space, truncate: None, bad_flag: None, free: false, drip: false, raw: None, segments: 1 };
+                let base = Case { msgs: msgs.clone(), trailers: tr.clone(), space, truncate: None, bad_flag: None, free: false, drip: false, raw: None, segments: 1, fixed: None };
                 let len = encode(&base).0.len();
                 out.push(Case { free: len <= free_limit, ..base.clone() });
                 out.push(Case { drip: true, ..base.clone() });
@@ -282,10 +286,26 @@ fn cases(tier: Tier) -> Vec<Case> {
                     raw.extend_from_slice(&declared.to_be_bytes());
                     raw.extend(std::iter::repeat(0x41).take(tail));
                     for drip in [false, true] {
-                        out.push(Case { msgs: vec![], trailers: trailer_menu()[0].clone(), space: false, truncate: None, bad_flag: None, free: false, drip, raw: Some(raw.clone()), segments: 1 });
+                        out.push(Case { msgs: vec![], trailers: trailer_menu()[0].clone(), space: false, truncate: None, bad_flag: None, free: false, drip, raw: Some(raw.clone()), segments: 1, fixed: None });
                     }
                 }
             }
+        }
+    }
+    // messages beyond the layer's 8 KiB buffer, alone and behind small ones, the body cut at one
+    // position (before / at / after the 8192nd byte, inside the large frame) or into equal blocks
+    let large: Vec<u8> = (0..9000u32).map(|i| (i % 251) as u8).collect();
+    for msgs in [vec![(0u8, large.clone())], vec![(0u8, vec![1, 2, 3]), (0u8, large.clone())], vec![(0u8, vec![]), (0u8, vec![5]), (0u8, large.clone()), (0u8, vec![6])]] {
+        let base = Case { msgs: msgs.clone(), trailers: trailer_menu()[0].clone(), space: false, truncate: None, bad_flag: None, free: false, drip: false, raw: None, segments: 1, fixed: None };
+        let total = encode(&base).0.len();
+        let mut cuts: Vec<usize> = vec![1, 4, 5, 8, 13, 100, 4096, 8000, 8191, 8192, 8193, 8200, 8210, 8500, 8974, 9000, 9005, 9010, total - 30, total - 1];
+        cuts.retain(|c| *c > 0 && *c < total);
+        for cut in cuts {
+            // first chunk `cut` bytes, then everything else
+            out.push(Case { fixed: Some(vec![cut, usize::MAX / 2]), ..base.clone() });
+        }
+        for block in [1000usize, 4096, 8192, 8193] {
+            out.push(Case { fixed: Some(vec![block]), ..base.clone() });
         }
     }
     out
@@ -305,7 +325,7 @@ fn call_body(c: &CallCase, ch: &Chooser) -> Outcome {
     if !c.message.is_empty() {
         tr.push(("grpc-message".into(), c.message.as_bytes().to_vec()));
     }
-    let case = Case { msgs: c.msgs.iter().map(|m| (0u8, m.clone())).collect(), trailers: tr, space: false, truncate: None, bad_flag: None, free: false, drip: false, raw: None, segments: 1 };
+    let case = Case { msgs: c.msgs.iter().map(|m| (0u8, m.clone())).collect(), trailers: tr, space: false, truncate: None, bad_flag: None, free: false, drip: false, raw: None, segments: 1, fixed: None };
     let (bytes, _) = encode(&case);
     let inner = Canned { body: bytes, chunking: Chunking::Choose { free: false, pending: true, empty: false }, segments: 1, ch: ch.clone(), stats: Default::default() };
     let mut client = EchoClient::new(GrpcWebClientService::new(inner));
@@ -338,9 +358,9 @@ pub fn property(tier: Tier) -> Property {
     let a = Section::new(
         "client-body",
         Config { max_bound: tier.q(2, 3), hang_secs: 20, ..Default::default() },
-        "cases: grpc-web response bodies built by the independent encoder: 0..2 message frames (flags 0/1, payloads 0..3 bytes) + one 0x80 trailers frame over a trailer-map menu (values with ':' and spaces, repeated names, empty values, opaque non-UTF-8 bytes; 'k:v' and 'k: v' spellings), plus truncation at every byte, an invalid flag byte at every frame start, and bodies ending inside a frame whose prefix declares 2^31-1 .. 2^32-1 bytes; environment: every chunking (all compositions for bodies <= 21/24 bytes, otherwise <= bound cuts/Pending deviations) plus byte-by-byte drip through GrpcWebClientService over a scripted inner service; oracle: DATA concatenates to exactly the message-frame bytes, then exactly one trailers frame equal as a multimap to what was sent, then None; truncated inside a frame / bad flag => an error and never a clean end; no busy loop. Non-trivial = body delivered in more than one chunk, truncated or corrupted.",
+        "cases: grpc-web response bodies built by the independent encoder: 0..2 message frames (flags 0/1, payloads 0..3 bytes; and a 9000-byte message, beyond the layer's 8 KiB buffer, alone / behind 1..2 small ones, the body cut once at 20 positions around the prefix and the 8192nd byte or into equal blocks) + one 0x80 trailers frame over a trailer-map menu (values with ':' and spaces, repeated names, empty values, opaque non-UTF-8 bytes; 'k:v' and 'k: v' spellings), plus truncation at every byte, an invalid flag byte at every frame start, and bodies ending inside a frame whose prefix declares 2^31-1 .. 2^32-1 bytes; environment: every chunking (all compositions for bodies <= 21/24 bytes, otherwise <= bound cuts/Pending deviations) plus byte-by-byte drip through GrpcWebClientService over a scripted inner service; oracle: DATA concatenates to exactly the message-frame bytes, then exactly one trailers frame equal as a multimap to what was sent, then None; truncated inside a frame / bad flag => an error and never a clean end; no busy loop. Non-trivial = body delivered in more than one chunk, truncated or corrupted.",
         cases(tier),
-        |c: &Case| format!("msgs={:?} trailers={:?} space={} truncate={:?} bad_flag={:?} free={} drip={} raw={:?} segments={}", c.msgs, show(&c.trailers), c.space, c.truncate, c.bad_flag, c.free, c.drip, c.raw.as_ref().map(|r| hex(r)), c.segments),
+        |c: &Case| format!("msgs={:?} trailers={:?} space={} truncate={:?} bad_flag={:?} free={} drip={} raw={:?} segments={} fixed={:?}", c.msgs.iter().map(|(f, p)| if p.len() > 16 { format!("({f}, {} bytes)", p.len()) } else { format!("({f}, {p:?})") }).collect::<Vec<_>>(), show(&c.trailers), c.space, c.truncate, c.bad_flag, c.free, c.drip, c.raw.as_ref().map(|r| hex(r)), c.segments, c.fixed),
         body,
     )
     .mins(1000, 10, 100);
